@@ -567,13 +567,16 @@ func errorHandled(call *ssa.Call) string {
 		return "the error result is discarded"
 	}
 	fn := call.Parent()
-	// returned directly?
-	for _, r := range *ev.Referrers() {
-		if _, ok := r.(*ssa.Return); ok {
-			return ""
+	tests := nilTestsOf(ev)
+	// returned directly (tail call / unconditional return of the value)? Only when it is never tested:
+	// a value that is tested must be judged by what its non-nil edge does.
+	if len(tests) == 0 {
+		for _, r := range *ev.Referrers() {
+			if _, ok := r.(*ssa.Return); ok {
+				return ""
+			}
 		}
 	}
-	tests := nilTestsOf(ev)
 	if len(tests) == 0 {
 		// stored into a named result that is returned? (`err = f(); return err` without test)
 		for _, r := range *ev.Referrers() {
